@@ -549,6 +549,37 @@ SOURCE_TIE["C03"] = dict(
          "utils.rs (those stay tied by the correspondence check).",
     technique=" + code translator (trait IValue and its implementations, kind tables, value paths of Integer / Float / "
               "Boolean / Enumeration / Command nodes)")
+SOURCE_TIE["C17"] = dict(
+    text=" TIE TO THE SOURCE CODE (element schedules): tools/translate_parseorder.py (own tokenizer, expression / statement "
+         "parser and type inference from the struct / enum definitions of genapi/src/*.rs and the `impl Default` blocks) "
+         "re-translates on every run 37 `impl Parse for X` blocks of genapi/src/parser/*.rs into gen/ParseOrderSrc.v: "
+         "NodeAttributeBase, NodeElementBase, RegisterBase, every node kind (Node, Category, Integer, IntReg, MaskedIntReg, "
+         "Float, FloatReg, Boolean, Command, String, StringReg, Register, Port, Converter, IntConverter, SwissKnife, "
+         "IntSwissKnife, Enumeration, EnumEntry, StructReg, StructEntry), RegisterDescription, Formula and the value types of "
+         "elem_type.rs (ImmOrPNode<i64 / f64 / bool> with their sniffing conditions, NamedValue, ValueKind, PValue, PIndex, "
+         "ValueIndexed, AddressKind, RegPIndex, BitMask) - each as the ORDERED schedule of cursor operations (required / "
+         "optional TAG.. with default / repeated TAG.. / attribute / post-processing) with the local each result is bound to "
+         "and the final struct literal (field := local), tags = constants of gen/ElemNames.v, element types from the struct "
+         "fields. C17_schedules_from_source: for every covered impl (generic ones at every type argument in use) the "
+         "translated schedule, interpreted over the model's cursor primitives (model/PoOps.v), IS the model's parser "
+         "followed by the injection of its result into fields-by-Rust-name values, for every child list (loops by "
+         "induction on the model's fuel), attribute list and fresh-id counter; C17_schedule_numeric_kinds_from_source "
+         "spells out the bases and numeric / register kinds; C17_defaults_from_source (every default of every schedule is "
+         "what the model's result holds on a declaration with the required children only); C17_roundtrip_of_source (the "
+         "property on the translated schedules: rendered well-formed element base / register base / Integer / IntReg / "
+         "MaskedIntReg / Float / FloatReg are consumed completely and yield the normalised node under the Rust field "
+         "names); C17_asserted_tags_of_source (the tag an impl asserts is the tag the model's dispatch routes to it; the "
+         "impls calling store_invalidators are the register kinds); C17_schedule_example (vm_compute). Leaf impls (String, "
+         "NodeId, bool, i64, u64, f64, Expr), the id macros and match_text_view! are pinned by token text. NOT covered: "
+         "GroupNode and the Vec<NodeData> dispatch of mod.rs (listed in the generated file). A change outside the accepted "
+         "shapes in a covered impl is reported as a broken proof obligation (ShapeError), a change inside them (two "
+         "parse_if swapped, a default changed, parse_while -> parse_if, a result bound to another field) breaks the "
+         "equalities.",
+    note=" The meaning of a schedule (model/PoOps.v: step_sem / run_body over peek / parse_if / loop / next_if of the "
+         "model), the injections of the model's records into field-name values (proofs/P_C17s.v) and the shapes accepted "
+         "by tools/translate_parseorder.py are trusted; value ids = stored values, NodeId = name, fresh_id() called once "
+         "per EnumEntry (visible in its translated schedule).",
+    technique=" + code translator (element schedules of every Parse impl of genapi/src/parser)")
 for _pid, _d in SOURCE_TIE.items():
     if _pid in CLAIMED:
         for _k in ("text", "note", "technique"):
